@@ -204,6 +204,11 @@ def install_fs(ex, fs):
         f = deref(f)
         pl = deref(data)
         n = fs.nodes[f.path]
+        hole = getattr(f, 'hole', 0)
+        if not (isinstance(hole, int) and hole == 0):
+            # bytes skipped by seek before this write read back as zeros
+            n.content = list(env.normalize_segs(n.content + [('zero', 0, hole)]))
+            f.hole = 0
         if isinstance(pl, Data):
             n.content = list(env.normalize_segs(n.content + pl.segs))
         elif isinstance(pl, Raw):
@@ -212,6 +217,28 @@ def install_fs(ex, fs):
         else:
             raise Unsupported('write_all of %r' % (pl,))
         fs.log.append(('write', f.path))
+        return UNIT
+
+    def seek(f, pos):
+        # only SeekFrom::Current(n) with n >= 0 past the end of what was written (a hole); the file grows only when written to
+        f = deref(f)
+        p_ = deref(pos)
+        nm = (getattr(p_, 'vname', None) or '') + ' ' + str(getattr(p_, 'ty', ''))
+        if 'Current' not in nm:
+            raise Unsupported('seek %r' % (p_,))
+        f.hole = getattr(f, 'hole', 0) + p_.fields[0]
+        fs.log.append(('seek', f.path))
+        return 0
+
+    def set_len(f, n_):
+        f = deref(f)
+        node = fs.nodes[f.path]
+        cur = Data(node.content).length(ex) if node.content else 0
+        grow = n_ - cur
+        if ex.branch(b_lt(0, grow), 'set_len grows'):
+            node.content = list(env.normalize_segs(node.content + [('zero', 0, grow)]))
+        f.hole = 0
+        fs.log.append(('ftruncate', f.path))
         return UNIT
 
     def set_handle_times(f, at, mt):
@@ -319,6 +346,8 @@ def install_fs(ex, fs):
     add(r'(?:std::fs::)?read_dir::<.*>', wrap(read_dir))
     add(r'(?:std::fs::)?File::create::<.*>', wrap(file_create))
     add(r'<(?:std::fs::)?File as (?:std::io::)?Write>::write_all', wrap(write_all))
+    add(r'<(?:std::fs::)?File as (?:std::io::)?Seek>::seek', wrap(seek))
+    add(r'(?:std::fs::)?File::set_len', wrap(set_len))
     add(r'<(?:std::fs::)?File as (?:std::io::)?Write>::flush', lambda ex, c, a: ok(UNIT))
     add(r'(?:filetime::)?set_file_handle_times', wrap(set_handle_times))
     add(r'(?:std::fs::)?set_permissions::<.*>', wrap(set_permissions))
@@ -540,7 +569,15 @@ def put_band(ex, st, b, entries, closed=True):
     ents = []
     for e in entries:
         addrs = []
-        if e.kind == 'File' and e.size is not None:
+        if e.kind == 'File' and getattr(e, 'parts', None):
+            # a file stored in several blocks: parts = [(content class, length), ...]; class 'zero' is a run of zero bytes
+            off = {}
+            for (c, ln) in e.parts:
+                o = off.get(c, 0)
+                hsh = A.put_block(ex, st, Data([(c, 0 if c == 'zero' else o, ln)]))
+                addrs.append(A.mk_addr(ex, hsh, 0, ln))
+                off[c] = o + ln
+        elif e.kind == 'File' and e.size is not None:
             hsh = A.put_block(ex, st, Data([(e.cls, 0, e.size)]))
             addrs = [A.mk_addr(ex, hsh, 0, e.size)]
         ents.append(A.mk_entry(ex, e.path, e.kind, e.sec, addrs=addrs, target=e.target, nanos=e.nanos, mode=e.mode,
@@ -563,7 +600,15 @@ def check_restored(ex, fs, entries, dest, problems, chown_permitted=True):
                 problems.append('%s is an empty file in the archive, restored with content %r' % (e.path, n.content))
         elif e.kind == 'File':
             got = Data(n.content).canon(ex)
-            want = Data([(e.cls, 0, e.size)])
+            if getattr(e, 'parts', None):
+                segs, off = [], {}
+                for (c, ln) in e.parts:
+                    o = off.get(c, 0)
+                    segs.append((c, 0 if c == 'zero' else o, ln))
+                    off[c] = o + ln
+                want = Data(segs).canon(ex)
+            else:
+                want = Data([(e.cls, 0, e.size)])
             same = got.same(ex, want) if got.segs else eq(e.size, 0)
             if same is False or (same is not True and not ex.check_holds(same)[0]):
                 problems.append('%s content restored as %r, archive has %r' % (e.path, got.segs, want.segs))
@@ -619,7 +664,13 @@ def make_meta(prog, chown_permitted=True):
                        E('/e', 'File', size=None, cls=3, mode=ex.fresh_int('emode', 0, 0o7777), user=u, group=g, sec=es, nanos=en),
                        E('/f', 'File', size=ex.fresh_int('fsize', 1, 1 << 20), cls=1, mode=ex.fresh_int('fmode', 0, 0o7777), user=u, group=g, sec=fs_, nanos=fn_),
                        E('/l', 'Symlink', target='d/g', user=u, group=g, sec=ls, nanos=ln),
+                       E('/z0', 'File', size=0, cls='zero', mode=0o644, user=u, group=g, sec=8, nanos=0),
+                       E('/z1', 'File', size=0, cls=4, mode=0o644, user=u, group=g, sec=9, nanos=0),
                        E('/d/g', 'File', size=ex.fresh_int('gsize', 1, 1 << 20), cls=2, mode=ex.fresh_int('gmode', 0, 0o7777), user=u, group=g, sec=7, nanos=7)]
+            # /z0: nothing but zero bytes; /z1: data, a run of zeros in the middle, data, and zeros at the end (sparse-file shapes)
+            entries[-3].parts = [('zero', ex.fresh_int('z0len', 1, 1 << 20))]
+            entries[-2].parts = [(4, ex.fresh_int('z1a', 1, 1 << 16)), ('zero', ex.fresh_int('z1b', 1, 1 << 16)), (4, ex.fresh_int('z1c', 1, 1 << 16)),
+                                 ('zero', ex.fresh_int('z1d', 1, 1 << 16))]
             ex.assume((entries[1].mode / 64) % 8 == 7)      # the directory stays writable/searchable for its owner
             put_band(ex, st, 0, entries)
             ex.env['bands'] = [(0, True, entries)]
@@ -913,5 +964,8 @@ def bands_json(m, bands):
             js.append({'path': e.path, 'kind': e.kind, 'size': conc(m, e.size) if e.size is not None else 0, 'class': e.cls or 1,
                        'mode': conc(m, e.mode) if e.mode is not None else None, 'user': 'root' if e.user else None,
                        'group': 'root' if e.group else None, 'mtime': [conc(m, e.sec), conc(m, e.nanos)], 'target': e.target})
+            if getattr(e, 'parts', None):
+                js[-1]['parts'] = [[c, conc(m, ln)] for (c, ln) in e.parts]
+                js[-1]['class'] = 1
         out.append({'band': b, 'closed': closed, 'entries': js})
     return out
